@@ -464,6 +464,15 @@ func genGC(cfg simkit.RunConfig, backend string) *Scenario {
 	if r.Intn(4) == 0 {
 		sc.GC.FailAt = r.Intn(4)
 	}
+	// splits attached to requests of the GC client (between a lock scan and the resolve request that follows it)
+	if r.Intn(2) == 0 {
+		if sc.Net.Plan == nil {
+			sc.Net.Plan = map[string]simkit.Fate{}
+		}
+		for i, n := 0, 1+r.Intn(3); i < n; i++ {
+			sc.Net.Plan[fmt.Sprintf("ord:%d:gc+%d", sc.Clients, r.Intn(14))] = pick(r, []simkit.Fate{simkit.TopoSplitAfter, simkit.TopoSplitAfter, simkit.TopoSplit})
+		}
+	}
 	// topology changes while the GC phase runs (it starts after the writers, ~0.3-1 s)
 	ne := r.Intn(4)
 	for i := 0; i < ne; i++ {
